@@ -243,6 +243,18 @@ class NP(object):
         a = arr.astype(object)
         return _np.insert(a, pysym._toint(obj), _unwrap0(values), axis=axis)
 
+    def empty(self, shape, dtype=None):
+        # unspecified content: every entry is a fresh unknown (symbolic shapes are handled by the abstract-array layer only)
+        self._u('empty')
+        shp = shape if isinstance(shape, (tuple, list)) else (shape,)
+        shp = tuple(pysym._toint(s) for s in shp)
+        if any(isinstance(s, P) for s in shp):
+            raise CheckerError('np.empty with a symbolic shape is not modelled in this harness')
+        a = _np.empty(shp, dtype=object)
+        for idx in _np.ndindex(*shp):
+            a[idx] = pysym.real(self.interp.newname('uninitialised'))
+        return a
+
     def zeros_like(self, x):
         a = _np.empty(x.shape, dtype=object)
         a.fill(0)
